@@ -7,7 +7,7 @@ from hypothesis import strategies as st
 
 from vlib import boot  # noqa: F401
 from vlib.core import Campaign, Outcome, exc_bucket, exc_detail
-from vlib.dag import DagModel, build_pipeline, dag_programs, labels
+from vlib.dag import SharedLog, DagModel, build_pipeline, dag_programs, labels
 
 from pipefunc._pipefunc import PipeFunc
 from pipefunc.lazy import _LazyFunction, construct_dag
@@ -100,7 +100,10 @@ def body(data) -> Outcome:
     labs = labels(prog)
     out.labels = labs + [f"cache:{cache_type}"]
     out.nontrivial = "diamond" in labs or "multi_output_both_consumed" in labs
-    log: list = []
+    from vlib import dag as _dag
+
+    _dag._LOGS.clear()
+    log: list = SharedLog()
     try:
         p = build_pipeline(prog, log, lazy=True, cache_type=cache_type)
     except Exception as e:
@@ -222,6 +225,88 @@ def body(data) -> Outcome:
                 break
         out.labels.append("dag-multi")
 
+    # ---- histories on ONE lazy pipeline object (its own cache, explicit or implied by a cache=True function) ----------
+    # (a) the same request twice, evaluated after both were made: right value, no function more than once per history
+    # (b) the same request in two construct_dag() blocks (optionally after a plain call): each block records the full graph
+    # (c) a deferred value made before a block and supplied to a request inside it: the graph stays acyclic
+    implied = cache_type is None and any(fn.get("cache") for fn in prog["funcs"])
+    if cache_type == "lru" or implied:
+        ti = (pick >> 2) % len(targets)
+        t = targets[ti]
+        kw = {r: f"V{r}~h" for r in m.needed_roots(t)}
+        want, _, _, _, calls, _ = m.evaluate(t, kw)
+        variant = (pick >> 6) % 3
+        units += 1
+        del log[:]
+        try:
+            p = build_pipeline(prog, log, lazy=True, cache_type=cache_type)
+            if variant == 0:
+                out.labels.append("history:same-request-twice" + ("-implied-cache" if implied else ""))
+                first, second = p(t, **kw), p(t, **kw)
+                order = [second, first] if pick % 2 else [first, second]
+                for x in order:
+                    del log[:]
+                    v = x.evaluate()
+                    if v != want:
+                        out.fail("history-repeat-value", f"got {v!r} want {want!r}")
+                    names = [c[0] for c in log]  # one evaluate(): every function at most once (cached ones maybe not at all)
+                    twice = sorted({n for n in names if names.count(n) > 1})
+                    if twice:
+                        out.fail("history-repeat-function-invoked-more-than-once-by-one-evaluate", f"{twice}: {names}",
+                                 {"twice": twice, "target": t if isinstance(t, str) else list(t)})
+                    elif not set(names) <= {c[0] for c in calls}:
+                        out.fail("history-repeat-calls", f"got {names} want a subset of {[c[0] for c in calls]}")
+            elif variant == 1:
+                out.labels.append("history:two-dag-blocks" + ("-implied-cache" if implied else ""))
+                if pick % 2:
+                    p(t, **kw)  # a plain (deferred, never evaluated) request first
+                for blk in (1, 2):
+                    with construct_dag() as tg:
+                        r = p(t, **kw)
+                    if blk == 2:
+                        del log[:]
+                        v = r.evaluate()
+                        if v != want:
+                            out.fail("history-two-blocks-value", f"got {v!r} want {want!r}")
+                    _graph_check(out, f"history-block{blk}", tg, m, calls)
+        except Exception as e:
+            out.fail(exc_bucket(e, "history-raised"), exc_detail(e))
+    if not isinstance(targets[(pick >> 2) % len(targets)], tuple):
+        t = targets[(pick >> 2) % len(targets)]
+        cone = m.cone(t)
+        inter = [o for f in cone for o in m.funcs[f]["outs"] if m.funcs[f]["name"] != m.producer[t]["name"] and len(m.funcs[f]["outs"]) == 1]
+        if inter and (pick >> 8) % 2:
+            o = inter[(pick >> 9) % len(inter)]
+            kw_o = {r: f"V{r}~o" for r in m.needed_roots(o)}
+            kw_t = {r: f"V{r}~o" for r in m.needed_roots(t, (o,))}
+            try:
+                want_o = m.evaluate(o, kw_o)[0]
+                want_t, _, _, _, calls_t, used_t = m.evaluate(t, {**kw_t, o: want_o})
+            except Exception:
+                used_t = set()
+            if o in used_t:
+                units += 1
+                del log[:]
+                try:
+                    p = build_pipeline(prog, log, lazy=True, cache_type=None)
+                    # make the id counter run ahead, as any earlier lazy work in the process would
+                    outside = p(o, **kw_o)
+                    with construct_dag() as tg:
+                        r = p(t, **{**kw_t, o: outside})
+                    g = tg.graph
+                    out.labels.append("history:deferred-value-from-outside-the-block")
+                    if not nx.is_directed_acyclic_graph(g):
+                        out.fail("history-outside-value-graph-cyclic", str(list(g.edges)))
+                    inside = {c[0] for c in calls_t}
+                    fnodes = {nid: lf.func.__name__ for nid, lf in tg.mapping.items() if isinstance(lf.func, PipeFunc)}
+                    if sorted(fnodes.values()) != sorted(inside):
+                        out.fail("history-outside-value-graph-nodes", f"function nodes {sorted(fnodes.values())} want {sorted(inside)}")
+                    v = r.evaluate()
+                    if v != want_t:
+                        out.fail("history-outside-value-value", f"got {v!r} want {want_t!r}")
+                except Exception as e:
+                    out.fail(exc_bucket(e, "history-outside-value-raised"), exc_detail(e))
+
     # ---- a failing node: evaluate() must behave like the eager call, also when evaluated again ---------------------
     ti = pick % len(targets)
     t = targets[ti]
@@ -282,4 +367,40 @@ def campaigns(tier):
     return [Campaign("lazy", body, strat, quick=2500, thorough=40000, describe="lazy DAG programs x outputs x {plain, construct_dag} x {call, full_output}")]
 
 
-PREDICATES = {}
+def _pred_shared_by_cached_and_uncached(case, failure) -> bool:
+    """C18 finding: the pipeline cache of a lazy pipeline memoises *deferred objects*. When the same request is made
+    again, a cached function hands back the deferred object of the first request (whose upstream nodes belong to the
+    first request) while an uncached consumer of the same upstream function gets a new deferred object with new
+    upstream nodes: a function that is reachable from the target both through a cached function and along a path
+    of uncached functions is then invoked once per path by a single evaluate()."""
+    info = failure.info or {}
+    if "more-than-once-by-one-evaluate" not in failure.bucket or not info.get("twice"):
+        return False
+    prog = case["data"]["prog"]
+    m = DagModel(prog)
+    cached = {fn["name"] for fn in prog["funcs"] if fn.get("cache")}
+    t = info["target"]
+    top = m.producer[t if isinstance(t, str) else t[0]]["name"]
+
+    def reach(start, through_uncached_only):
+        seen, stack = set(), [start]
+        while stack:
+            f = stack.pop()
+            for d in m.deps(f):
+                if d not in seen:
+                    seen.add(d)
+                    if not (through_uncached_only and d in cached):
+                        stack.append(d)
+        return seen
+
+    for u in info["twice"]:
+        if u in cached:
+            return False
+        fresh_path = top not in cached and u in reach(top, True)
+        via_cached = any(u in reach(c, False) for c in cached if c == top or c in reach(top, False))
+        if not (fresh_path and via_cached):
+            return False
+    return True
+
+
+PREDICATES = {"shared_by_cached_and_uncached": _pred_shared_by_cached_and_uncached}
